@@ -17,9 +17,28 @@ BEGIN = re.compile(r'^\s*(//|!)\s*splicer begin\s+(\S+)')
 END = re.compile(r'^\s*(//|!)\s*splicer end\s+(\S+)')
 
 
-def run(yaml_text, d, extra_files=(), splicer_yaml=None):
+def nest(tags_to_lines):
+    """{'a.b.c': [lines]} -> {'a': {'b': {'c': [lines]}}}"""
+    root = {}
+    for tag, lines in tags_to_lines.items():
+        cur = root
+        parts = tag.split(".")
+        for p_ in parts[:-1]:
+            cur = cur.setdefault(p_, {})
+            if not isinstance(cur, dict):
+                return None
+        if isinstance(cur.get(parts[-1]), dict):
+            return None
+        cur[parts[-1]] = list(lines)
+    return root
+
+
+def run(yaml_text, d, extra_files=(), splicer_yaml=None, splicer_code=None):
     from shroud import main as M
     text = yaml_text
+    if splicer_code:
+        import yaml
+        text += yaml.safe_dump({"splicer_code": splicer_code}, default_flow_style=False)
     if splicer_yaml:
         text += "splicer:\n" + "".join("  %s:\n%s" % (k, "".join("  - %s\n" % f for f in fs)) for k, fs in sorted(splicer_yaml.items()))
     p = os.path.join(d, "lib.yaml")
@@ -59,6 +78,8 @@ def blocks_of(path):
 
 
 def check(inp):
+    if inp.get("how") == "decl":
+        return check_decl(inp)
     d = tempfile.mkdtemp(prefix="mspl_")
     try:
         try:
@@ -98,6 +119,9 @@ def check(inp):
                 sp[kind] += ["%s splicer begin %s" % (lead, tag), uniq, "%s splicer end %s" % (lead, tag), ""]
         if not expect:
             return None
+        how = inp.get("how", "cmdline")
+        if how in ("code", "mixed", "collide"):
+            return check_sources(inp, d, out, files, expect, how)
         # a nested tag first, a file-level tag last, in both files: order of blocks in a splicer file is the user's choice
         names = {}
         for kind, ext in (("c", ".c"), ("f", ".f")):
@@ -135,6 +159,134 @@ def check(inp):
         for s, where in found.items():
             if s not in expect:
                 return "unexpected user line %r in %r" % (s, where)
+        return None
+    finally:
+        shutil.rmtree(d, ignore_errors=True)
+
+
+def user_lines(outdir):
+    found = {}
+    for n in sorted(os.listdir(outdir)):
+        kind = "f" if (n.startswith("wrapf") and n.endswith((".f", ".f90"))) else "c" if n.endswith((".c", ".cpp", ".h")) else None
+        if kind is None or n.startswith(("py", "lua")):
+            continue
+        for tag, bodies in blocks_of(os.path.join(outdir, n)).items():
+            for body in bodies:
+                for line in body:
+                    s = line.strip()
+                    if "USERLINE_" in s:
+                        found.setdefault(s, []).append((kind, tag, n))
+    return found
+
+
+def check_sources(inp, d, out, files, expect, how):
+    """the three ways of supplying a block and their precedence: splicer_code in the YAML, splicer files, both.
+    code     every block through splicer_code
+    mixed    blocks alternate between a splicer file and splicer_code (disjoint names): every one of them arrives
+    collide  every block in BOTH, with different text: the splicer_code text is emitted (it is applied after the files),
+             the file's text nowhere"""
+    by_kind = {"c": {}, "f": {}}
+    for uniq, (kind, tag) in expect.items():
+        by_kind[kind][tag] = uniq
+    code, filetext, want = {}, {"c": [], "f": []}, {}
+    for kind in ("c", "f"):
+        lead = "//" if kind == "c" else "!"
+        in_code = {}
+        for i, (tag, uniq) in enumerate(sorted(by_kind[kind].items())):
+            to_code = how in ("code", "collide") or (how == "mixed" and i % 2 == 0)
+            to_file = how == "collide" or (how == "mixed" and i % 2 == 1)
+            if to_code:
+                in_code[tag] = [uniq]
+                want[uniq] = (kind, tag)
+            if to_file:
+                line = uniq + ("_FROMFILE" if how == "collide" else "")
+                filetext[kind] += ["%s splicer begin %s" % (lead, tag), line, "%s splicer end %s" % (lead, tag), ""]
+                if how != "collide":
+                    want[uniq] = (kind, tag)
+        n_ = nest(in_code)
+        if n_ is None:
+            return None         # a tag that is both a leaf and a prefix cannot be written as a mapping
+        if n_:
+            code[kind] = n_
+    extra = []
+    for kind, ext in (("c", ".c"), ("f", ".f")):
+        if filetext[kind]:
+            fn = os.path.join(d, "user_splicer" + ext)
+            open(fn, "w").write("\n".join(filetext[kind]) + "\n")
+            extra.append(fn)
+    try:
+        out2 = run(inp["yaml"], d, extra_files=extra, splicer_code=code)
+    except Exception as e:
+        return "the generator rejects user blocks that repeat its own block names (%s): %s" % (how, str(e)[:200])
+    found = user_lines(out2)
+    for uniq, (kind, tag) in sorted(want.items()):
+        got = found.get(uniq, [])
+        if not got:
+            return "[%s] user code supplied for block %s (%s) is not in any generated file" % (how, tag, "C" if kind == "c" else "Fortran")
+        bad = [g for g in got if g[0] != kind or g[1] != tag]
+        if bad:
+            return "[%s] user code supplied for block %s landed in block %s of %s" % (how, tag, bad[0][1], bad[0][2])
+    for s_, where in found.items():
+        if s_ not in want:
+            return "[%s] unexpected user line %r in %r%s" % (how, s_, where[:2], " (splicer_code is applied after the splicer files: "
+                                                              "its text is the one to emit)" if s_.endswith("_FROMFILE") else "")
+    return None
+
+
+DECL_LIB = """library: dcl
+cxx_header: dcl.hpp
+options:
+  wrap_python: false
+  wrap_lua: false
+declarations:
+- decl: void pass_name(const std::string &name)
+%s
+- decl: int plain(int a)
+- decl: class Widget
+  declarations:
+  - decl: void rename(const char *name)
+%s
+"""
+
+
+def check_decl(inp):
+    """a splicer given on a declaration replaces the body of THAT wrapper's block; every other block -- the generated
+    variants of the same function included (bufferify) -- keeps the default it has without the declaration-level splicer"""
+    d = tempfile.mkdtemp(prefix="mspl_")
+    try:
+        keys = inp["keys"]
+        def sp(ind, who):
+            pad = " " * ind
+            return pad + "splicer:\n" + "".join("%s  %s:\n%s  - %s USERLINE_%s_%s\n" % (
+                pad, k, pad, "!" if k == "f" else "//", who, k) for k in keys)
+        try:
+            base = run(DECL_LIB % ("", ""), d)
+            b0 = dict((n, blocks_of(os.path.join(base, n))) for n in sorted(os.listdir(base)) if n.endswith((".cpp", ".h", ".f")))
+            out2 = run(DECL_LIB % (sp(2, "func"), sp(4, "meth")), d)
+        except Exception:
+            return None
+        target = {"c": "", "c_buf": "_bufferify", "f": ""}
+        for n in sorted(b0):
+            b1 = blocks_of(os.path.join(out2, n))
+            if sorted(b1) != sorted(b0[n]):
+                return "the declaration-level splicers %s change the set of blocks of %s" % (keys, n)
+            for tag in b0[n]:
+                leaf = tag.split(".")[-1]
+                lang = "f" if n.endswith(".f") else "c"
+                mine = [k for k in keys if (k == "f") == (lang == "f") and leaf in ("pass_name" + target[k], "rename" + target[k])
+                        and ("function." in tag or "method." in tag)]
+                user = [l.strip() for body in b1[tag] for l in body if "USERLINE_" in l]
+                if mine:
+                    if not user:
+                        return "the %s splicer of the declaration is not in block %s of %s" % (mine[0], tag, n)
+                    k = mine[0]
+                    if any(not u.endswith("_" + k) for u in user):
+                        return "block %s of %s holds %r: not the text given for %r" % (tag, n, user, k)
+                elif user:
+                    return "block %s of %s was not supplied by the user (declaration-level keys %s) but holds %r instead of its default" % (
+                        tag, n, keys, user)
+                elif b1[tag] != b0[n][tag]:
+                    return "block %s of %s was not supplied by the user but its default body changed" % (tag, n)
         return None
     finally:
         shutil.rmtree(d, ignore_errors=True)
@@ -198,4 +350,9 @@ declarations:
 def candidates(seed, around=None):
     for y in LIBS:
         for how in ("cmdline", "yaml-key"):
+            yield {"yaml": y, "how": how}
+    for keys in (["c"], ["f"], ["c", "f"], ["c", "c_buf"], ["c_buf"], ["c", "c_buf", "f"]):
+        yield {"how": "decl", "keys": keys}
+    for y in LIBS:
+        for how in ("code", "mixed", "collide"):
             yield {"yaml": y, "how": how}
